@@ -130,6 +130,18 @@ class ReactiveClient(K.Peer):
             return
         self.drain()
 
+    def act_no_read(self) -> None:
+        """Like act(), but never reads (a client that sends its requests and then ignores the answers)."""
+        if self.sock is None or self.closed:
+            return
+        if self.seg_i < len(self.segments):
+            idx, piece = self.segments[self.seg_i]
+            if self.sent >= len(self.out):
+                self.out += piece
+            self._send_some(None)
+            if self.sent >= len(self.out):
+                self.seg_i += 1
+
     @property
     def wants_more(self) -> bool:
         if self.sock is None or self.closed:
